@@ -176,7 +176,11 @@ VerdictPadding(rec) ==
 \* receiver unchanged by as_percentage_of / fit_to_screen: rec.before / rec.after
 \* are the serialised receiver; rec.fresh: the result is a different object or the
 \* operation is the identity on it
-VerdictImmut(rec) == IF rec.before # rec.after THEN "ReceiverModified" ELSE "ok"
+\* rec.outs : what relativizing (against 640 x 360) and then fitting the relativized value gave:
+\* "value" or "raise:<type>"; both are stated to return a value for every layout
+VerdictImmut(rec) == IF rec.before # rec.after THEN "ReceiverModified"
+                     ELSE IF \E k \in 1..Len(rec.outs) : rec.outs[k] # "value" THEN "NoValueReturned"
+                     ELSE "ok"
 -----------------------------------------------------------------------------
 (* 5. Relativization and fit-to-screen (C13)                                 *)
 (* A length is an abstract size [n, d, u]; "absent" parts are               *)
